@@ -12,7 +12,7 @@ RULE = ('real threads under a deterministic line-granularity scheduler (sys.sett
         'thread B parses on the same Licensing to completion and thread C constructs another Licensing and parses; then A resumes. '
         'The subsequent parse: on a Licensing that has already parsed one text, A parses another text (or the same) and is preempted '
         'before every k-th line while B parses the previous (or another) text. Construction meanwhile: A is preempted before every k-th '
-        'line of its first parse while another thread constructs a Licensing over 1200 keys never seen before; queries (key listings, validation of keys, dedup, is_equivalent) on nested expression objects (depths 12, 120, 330, 600) from two threads with two preemption points (counted from the first and from the last line of each call); the index loaders (build_licensing, build_spdx_licensing over a small index) preempted before their k-th line while another thread parses a text with words that are not valid keys on a warm Licensing. '
+        'line of its first parse while another thread constructs a Licensing over 1200 keys never seen before; the simple tokenizer (tokenize / parse / combine_expressions with simple=True) from two threads with every single preemption; queries (key listings, validation of keys, dedup, is_equivalent) on nested expression objects (depths 12, 120, 330, 600) from two threads with two preemption points (counted from the first and from the last line of each call); the index loaders (build_licensing, build_spdx_licensing over a small index) preempted before their k-th line while another thread parses a text with words that are not valid keys on a warm Licensing. '
         'Spec: every result equals the result of the call run alone. Correspondence: the sequence of protocol steps the threads '
         'took (read shared / allocate / add / make_automaton / publish / use) is replayed on the Lean protocol model and the '
         'tokenizer each thread used (entries, finalised) must be the one the model says. non-trivial = the preemption falls inside '
@@ -161,6 +161,51 @@ class Prop(BaseProp):
             return Verdict('spec', case, 'the loading thread did not build the table of the index', impl=list(ts[0].result)[:2], tags=['loader'])
         return Verdict('ok', case, impl=got, nontrivial=True, tags=['loader'])
 
+    SIMPLE_TEXTS = [('mit or gpl-2.0 and (foo with bar)', 'zz top and mit'), ('mit gpl-2.0', '(apache-2.0 or mit) and ( x'),
+                    ('a or b or c or d', 'mit with')]
+
+    def eval_simple(self, drv, case, solo_cache={}):
+        """the simple tokenizer from two threads on one warm Licensing: A is preempted before its k-th line while B tokenizes and
+        parses another text to completion; tokens with their positions, trees and located errors are what they are alone"""
+        ti, k0, pi, which = case['table'], case['ks'][0], case['pair'], case['call']
+        table, text0 = TABLES[ti]
+        ta, tb = self.SIMPLE_TEXTS[pi]
+        L = le.Licensing(impl.table_objs(table))
+        L.parse(text0)
+        calls = {'tokenize': lambda t: [(str(a), b, c) for a, b, c in L.tokenize(t, simple=True)],
+                 'parse': lambda t: impl.outcome(lambda: L.parse(t, simple=True)),
+                 'combine': lambda t: str(le.combine_expressions([t, 'mit'], licensing=L))}
+        fn = calls[which]
+
+        def res(r):
+            if r[0] != 'ok':
+                return list(r)
+            v = r[1]
+            if isinstance(v, list) and v and v[0] in ('ok', 'parseerr', 'exprerr', 'other', 'blank'):
+                return ['ok', [v[0]] + ([impl.tree_c(v[1])] if v[0] == 'ok' and v[1] is not None else [str(x) for x in v[1:]])]
+            return ['ok', v]
+        key = ('simple', ti, pi, which)
+        if key not in solo_cache:
+            solo_cache[key] = [res(sched.run([lambda: fn(ta)], lambda i, r, st: (r[0], BIG))[0][0].result),
+                               res(sched.run([lambda: fn(tb)], lambda i, r, st: (r[0], BIG))[0][0].result)]
+        want = solo_cache[key]
+
+        def sf(i, runnable, steps):
+            if 't0' in runnable and steps['t0'] < k0:
+                return ('t0', k0 - steps['t0'])
+            if 't1' in runnable:
+                return ('t1', BIG)
+            return ('t0', BIG)
+        try:
+            ts, abstract = sched.run([lambda: fn(ta), lambda: fn(tb)], sf)
+        except RuntimeError as e:
+            return Verdict('spec', case, str(e))
+        got = [res(t.result) for t in ts]
+        if got != want:
+            return Verdict('spec', case, 'a simple-tokenizer call on a shared Licensing returns something else than when run alone (%s)' % which,
+                           impl=got, model=want, tags=['simple'])
+        return Verdict('ok', case, impl=got[0][0], nontrivial=True, tags=['simple'])
+
     DEEP = [12, 120, 330, 600]     # nesting depths of the expression objects of the `deep` scenario (the last: more than the interpreter walks by default)
 
     @staticmethod
@@ -221,6 +266,8 @@ class Prop(BaseProp):
         return Verdict('ok', case, impl=got[0][0], nontrivial=True, tags=['deep', 'deep=%d:%s' % (depth, got[0][0])])
 
     def eval_case(self, drv, case, solo_cache={}):
+        if case.get('scn', 'first') == 'simple':
+            return self.eval_simple(drv, case)
         if case.get('scn', 'first') == 'deep':
             return self.eval_deep(drv, case)
         if case.get('scn', 'first') == 'loader':
@@ -299,6 +346,12 @@ class Prop(BaseProp):
                     cases.append({'table': ti, 'ks': [k], 'scn': scn})
             for k in range(0, nsteps + 1):
                 cases.append({'table': ti, 'ks': [k], 'scn': 'heavy'})
+            # the simple tokenizer from two threads: every single preemption of A (every second line in the quick tier)
+            if ti == 0:
+                for pi in range(len(self.SIMPLE_TEXTS)):
+                    for which in ('tokenize', 'parse', 'combine'):
+                        for k in range(0, 260, 1 if tier == 'thorough' else 2):
+                            cases.append({'table': ti, 'ks': [k], 'scn': 'simple', 'pair': pi, 'call': which})
             # queries on deeply nested expression objects: all pairs of preemption points of two short calls (a sample in the quick tier)
             if ti == 0:
                 for depth in self.DEEP:
